@@ -377,6 +377,10 @@ def jobs(tier):
     return _jobs(tier)
 
 
+BATTERY_EXTRA = ([("vf.props.C19:concrete", {"entry": e}) for e in ENTRY] + [("vf.props.C19:concrete", {"class": c}) for c in CLASSES]
+                 + [("vf.props.C19:concrete", {"missing_model_entry": e}) for e in MODEL_ENTRY])
+
+
 def _jobs(tier):
     js = [("both_%s_N%d" % (proc.SHORT.get(e, e), N), "both_specified", {"entry": e, "N": N}) for e in ENTRY for N in ((1,) if tier == "quick" else (1, 2))]
     js.append(("incomplete", "incomplete", {}))
